@@ -160,7 +160,7 @@ class G:
             if p in names:
                 continue
             names.add(p)
-            mode = r.choice([0o644, 0o644, 0o600, 0o755]) if modes else 0o644
+            mode = r.choice([0o644, 0o644, 0o600, 0o755, 0o664, 0o666, 0o775, 0o640, 0o711]) if modes else 0o644
             entries.append({"p": p, "k": "f", "c": self.content(search_ws), "m": mode})
         if symlinks and r.random() < 0.3:
             files = [e for e in entries if e["k"] == "f"]
